@@ -248,7 +248,7 @@ def check(tier):
     }
     rep.assumptions = [
         "theorems are about coq/DigitModel.v; the C++ is tied by gen/Tables_digit.v and the finite differential run reported here",
-        "the one-ulp claim for non-integer numerals is NOT proved (Definition c09_real_one_ulp); it is tested against the exact-rational oracle",
+        "one ulp is PROVED for the positive power-of-ten scaling (c09_pos_power_one_ulp: every mantissa < 2^64, every exponent; exact when m*5^e < 2^53; >= 2^1024 rejected); NOT proved: the negative-power path, the offset bookkeeping that yields (mantissa, exponent) from the text, correct rounding (false: ties go up) -- these are tested against the exact-rational oracle",
         "requires findings/D28, D43, D44, D45 applied to /repo",
     ]
     return rep.finish()
